@@ -19,9 +19,6 @@ theorem marks1_withMarks (p : Payload) (ms : List String) : (p.withMarks ms).mar
     rw [h', (unionMarks_eq_nil.mp h').1]
   · rfl
 
-theorem withMarks_def (p : Payload) (ms : List String) :
-    p.withMarks ms = if (unionMarks p.marks1 ms).isEmpty then p else .marked (unionMarks p.marks1 ms) p.unmark1 := rfl
-
 /-- marking twice is marking once with the union (for a canonical second set) -/
 theorem withMarks_withMarks (p : Payload) (a : List String) {u : List String} (hu : MSorted u) :
     (p.withMarks a).withMarks u = p.withMarks (unionMarks a u) := by
